@@ -1,8 +1,20 @@
 mod common;
 mod gen1;
+mod gen2;
 mod l1;
+mod l2;
 mod run1;
+mod run2;
+#[path = "../../../shared/corpus.rs"]
+mod corpus;
+#[path = "../../../shared/vals.rs"]
 mod vals;
+#[path = "../../../shared/world.rs"]
+mod world;
+/// In this build `std` is the real one (the scheduled build substitutes shuttle's `Once`).
+pub mod sim_std {
+    pub use ::std::*;
+}
 
 use common::BatchArgs;
 use simcore::report::Replay;
@@ -35,6 +47,7 @@ fn main() {
             };
             match ba.engine.as_str() {
                 "l1" => run1::run_batch(ba),
+                "l2" => run2::run_batch(ba),
                 e => {
                     eprintln!("unknown engine {e}");
                     2
@@ -46,6 +59,7 @@ fn main() {
             let rp: Replay = serde_json::from_str(&std::fs::read_to_string(path).expect("read replay")).expect("parse replay");
             match rp.engine.as_str() {
                 "l1" => run1::replay(&rp, path),
+                "l2" => run2::replay(&rp, path),
                 e => {
                     eprintln!("unknown engine {e}");
                     2
